@@ -6,6 +6,7 @@
 #include "hcommon.h"
 #include "testkeys/RSA/2048_RSA.h"
 #include "testkeys/RSA/2048_RSA_CA.h"
+#include "c05_chain.h"
 
 static void free_san(x509GeneralName_t *n)
 {
@@ -16,7 +17,8 @@ int main(void)
 {
     if (psCryptoOpen(PSCRYPTO_CONFIG) < 0) { printf("INITFAIL\n"); return 2; }
     while (next_case()) {
-        if (g_ntok == 8 && strcmp(g_tok[0], "nc") == 0) {
+        if (g_ntok == 8 && (strcmp(g_tok[0], "nc") == 0 || strcmp(g_tok[0], "ncc") == 0)) {
+            int chain = strcmp(g_tok[0], "ncc") == 0;   /* leaf + intermediate presented, only the root trusted */
             matrixValidateCertsOptions_t opts; memset(&opts, 0, sizeof(opts));
             if (g_tok[1][0] == '1') opts.flags |= VCERTS_FLAG_SKIP_EXPECTED_NAME_VALIDATION;
             if (g_tok[2][0] == '1') opts.mFlags |= VCERTS_MFLAG_ALWAYS_CHECK_SUBJECT_CN;
@@ -24,8 +26,28 @@ int main(void)
             opts.nameType = atoi(g_tok[4]);
             unsigned char *expected; unhex(g_tok[5], &expected);
             psX509Cert_t *leaf = NULL, *ca = NULL, *found = NULL;
-            if (psX509ParseCert(NULL, RSA2048, sizeof(RSA2048), &leaf, 0) < 0 ||
-                psX509ParseCert(NULL, RSA2048CA, sizeof(RSA2048CA), &ca, 0) < 0) { printf("PARSEFAIL\n"); continue; }
+            psX509Cert_t *inter = NULL;
+            g_pin_year = chain ? 2030 : 2020;
+            if (!chain) {
+                if (psX509ParseCert(NULL, RSA2048, sizeof(RSA2048), &leaf, 0) < 0 ||
+                    psX509ParseCert(NULL, RSA2048CA, sizeof(RSA2048CA), &ca, 0) < 0) { printf("PARSEFAIL\n"); continue; }
+            } else {
+                if (psX509ParseCert(NULL, C05_LEAF, sizeof(C05_LEAF), &leaf, 0) < 0 ||
+                    psX509ParseCert(NULL, C05_INTER, sizeof(C05_INTER), &inter, 0) < 0 ||
+                    psX509ParseCert(NULL, C05_ROOT, sizeof(C05_ROOT), &ca, 0) < 0) { printf("PARSEFAIL\n"); continue; }
+                leaf->next = inter;
+                /* decoy: the INTERMEDIATE carries the expected name in SAN and CN; only the leaf's names may count */
+                size_t el = strlen((char *) expected);
+                free_san(inter->extensions.san); inter->extensions.san = NULL;
+                if (el > 0) {
+                    x509GeneralName_t *dn = psMalloc(NULL, sizeof(*dn)); memset(dn, 0, sizeof(*dn));
+                    dn->id = GN_DNS; dn->data = psMalloc(NULL, el + 1); memcpy(dn->data, expected, el + 1); dn->dataLen = (psSize_t) el;
+                    inter->extensions.san = dn;
+                }
+                psFree(inter->subject.commonName, NULL);
+                inter->subject.commonName = psMalloc(NULL, el + 2); memcpy(inter->subject.commonName, expected, el + 1);
+                inter->subject.commonName[el + 1] = 0; inter->subject.commonNameLen = (short) (el + 2);
+            }
             /* replace CN */
             psFree(leaf->subject.commonName, NULL); leaf->subject.commonName = NULL; leaf->subject.commonNameLen = 0;
             if (strcmp(g_tok[6], "NULL") != 0) {
